@@ -181,7 +181,7 @@ func qdScenario(cs qdCase) *mc.Scenario {
 				switch {
 				case free:
 					if !w.returned || !w.granted {
-						fail("C12:free-capacity-not-granted", "arrival %d with free capacity was not granted at once (returned=%v granted=%v)", w.id, w.returned, w.granted)
+						fail("C01:free-capacity-not-granted", "arrival %d with free capacity was not granted at once (returned=%v granted=%v)", w.id, w.returned, w.granted)
 					}
 					if w.granted {
 						heldToks = append(heldToks, w.tok)
